@@ -545,8 +545,14 @@ Stress(e) ==
         fCas == Fs(incr(e.commit), {"C04", "C08"}, <<"commit-order-not-cas-order">>, "increasing", Len(e.commit))
         \* C03: no increment is lost (the counter is created with 1 by the first Incr and never deleted)
         fIncr == Fs(e.counter = e.incrs, {"C03"}, <<"lost-increment">>, e.incrs, e.counter)
+        \* C03 / C08 / C01: the final document of every key is the one its last delivered event describes (CAS order = commit order)
+        fLast == Cardinality({i \in 1..Len(e.keys) :
+                    LET q == e.keys[i] IN
+                    ~(q.finalcas = q.evcas /\ q.finalval = (IF q.evdel THEN "" ELSE q.evval))
+                    /\ PrintT(<<"FAIL", {"C03", "C08", "C01"}, e.tr, i, e.mode, "stress", <<"final-state-is-not-the-last-event">>,
+                               <<q.key, q.evcas, q.evdel, q.evval>>, <<q.finalcas, q.finalval>>>>)})
     IN
-    /\ nfail' = nfail + fOrder + fLive + fSkip + fCkpt + fCas + fIncr
+    /\ nfail' = nfail + fOrder + fLive + fSkip + fCkpt + fCas + fIncr + fLast
     /\ UNCHANGED <<docs, obs, dumps, clock, start, evlog, verlog, auxs, vdef>>
 
 Next ==
